@@ -8,6 +8,7 @@ CONSTANTS
   Extra = 120
   Cube = TRUE
   MaxEvolve = 3
+  Repeat = 3
   EvolveEvery = 4
 SPECIFICATION Spec
 INVARIANTS TypeOK Total Outcome
